@@ -48,6 +48,17 @@ Definition SIG_FIT := 2%N.      (* fitting primitive read: wrong value / advance
 Definition SIG_NOFIT := 3%N.    (* non-fitting primitive read: not (0, error, nothing consumed) *)
 Definition SIG_CURSOR := 4%N.   (* cursor left the buffer *)
 Definition SIG_SHAPE := 5%N.    (* trace length differs from the op list *)
+Definition SIG_SEEK := 7%N.     (* Seek: an in-range target not reached, or an out-of-range one without error / with movement *)
+Definition SIG_BLOCK := 6%N.    (* Copy / Data: not the bytes at the cursor, or a non-fitting one without error *)
+
+(* Copy(n) judged like a primitive read of variable size: if it fits it returns exactly the n
+   bytes at the cursor and advances by n; otherwise (negative size, or beyond the end) it
+   returns nothing, records an error and consumes nothing. *)
+Definition copy_sig (data : bytes) (off n : Z) (ob : obs) (off' : Z) : N :=
+  if (0 <=? n) && (off + n <=? zlen data) then
+    (if val_eqb (o_val ob) (VBytes (slice data off (off + n))) && (off' =? off + n) then SIG_OK else SIG_BLOCK)
+  else
+    (if val_eqb (o_val ob) (VBytes []) && o_err ob && (off' =? off) then SIG_OK else SIG_BLOCK).
 
 Definition step_sig (data : bytes) (off : Z) (o : op) (ob : obs) : N :=
   let len := zlen data in
@@ -62,7 +73,22 @@ Definition step_sig (data : bytes) (off : Z) (o : op) (ob : obs) : N :=
         then SIG_OK else SIG_FIT
       else
         if val_eqb (o_val ob) (VNum 0) && o_err ob && (off' =? off) then SIG_OK else SIG_NOFIT
-  | None => SIG_OK
+  | None =>
+      match o with
+      | OCopy n => copy_sig data off n ob off'
+      | OSeek n =>
+          (* the cursor the later reads are judged at: an in-range relative seek (the end of
+             the buffer included) lands exactly there, any other records an error and stays *)
+          if (0 <=? off + n) && (off + n <=? len) then (if off' =? off + n then SIG_OK else SIG_SEEK)
+          else (if o_err ob && (off' =? off) then SIG_OK else SIG_SEEK)
+      | OData =>
+          (* a signed 16-bit length read as a primitive, then Copy(length) from behind it *)
+          if off + 2 <=? len then
+            copy_sig data (off + 2) (to_signed 16 (be_val (slice data off (off + 2)))) ob off'
+          else
+            (if val_eqb (o_val ob) (VBytes []) && o_err ob && (off' =? off) then SIG_OK else SIG_BLOCK)
+      | _ => SIG_OK
+      end
   end.
 
 Fixpoint trace_sig (data : bytes) (off : Z) (ops : list op) (tr : list (option obs)) : N :=
